@@ -98,8 +98,14 @@ func baseIntrinsics() map[string]intrinsicFn {
 		n := in.concInt(args[1], "Choice n")
 		t := in.tb.Var(name, 64)
 		in.inputs = append(in.inputs, inputVar{Name: name, Terms: []*Term{t}, Kind: "u"})
-		in.assume(in.tb.Cmp(OpUlt, t, in.tb.Const(64, uint64(n))))
-		return in.tb.Const(64, in.concretize(t))
+		in.sol.ref(t)
+		if n <= 0 {
+			panic(abortPath{"empty choice"})
+		}
+		// t is a fresh unconstrained variable: every value in [0,n) is feasible, no solver query needed
+		k := in.choose(n)
+		in.assertPC(in.tb.Eq(t, in.tb.Const(64, uint64(k))))
+		return in.tb.Const(64, uint64(k))
 	}
 	m[vhPath+"CrashAfter"] = func(in *Interp, fn *ssa.Function, args []Value) Value {
 		name := in.inputName(args)
